@@ -501,3 +501,158 @@ Proof.
   destruct (eo_spec _ c (E id c Hn) Ha) as (k & Hk & Hf & sc & Hsc).
   exists k, sc. unfold class_sa. rewrite Hn. auto.
 Qed.
+
+(** ** 5. Construction of frozen instances (corollary of the shared initializer theorem) *)
+
+Theorem frozen_constructs_l k sc von pos kw en :
+  wf k -> k_frozen k = true -> make_init_script k = GenOk sc -> bind_call sc pos kw = Bound en ->
+  no_plain_store (body sc) = true /\
+  exists i,
+    run_init k no_fault von pos kw = InitDone i (expected_trace k von en) /\
+    (forall a, In a (k_attrs k) -> participates a = true -> read k i (a_name a) = Ok (spec_value a en)) /\
+    (forall a, In a (k_attrs k) -> participates a = false -> read k i (a_name a) = Raise EAttributeError) /\
+    (k_cache_hash k = true -> read k i HASH_CACHE = Ok VNone) /\
+    i_args i = expected_args k en.
+Proof.
+  intros W Fz G B. split; [exact (frozen_init_no_plain_l k sc Fz G)|].
+  destruct (run_init_nofault k sc von pos kw en W G B) as (i & R & A1 & A2 & _ & A4 & A5).
+  exists i. auto.
+Qed.
+
+(** ** 6. End to end: lineage -> frozen pair on the instances *)
+
+Lemma icls_of_frozen t id env ic :
+  frozen_cls t id -> icls_of t id env = Some ic -> frozen_pair ic.
+Proof.
+  unfold frozen_cls, class_sa, class_da, icls_of. destruct (nth_error t id) as [c|]; [|discriminate].
+  destruct (c_spec c); [|discriminate]. intros [Hs Hd] H. inversion H; subst. split; assumption.
+Qed.
+
+Theorem frozen_end_to_end_l ds id env ic ops s :
+  lineage (build [] ds) id -> icls_of (build [] ds) id env = Some ic ->
+  (forall o, In o ops -> let_through ic o = false) ->
+  final ic s ops = s /\ run ic s ops = map (fun o => (refusal ic s o, s)) ops.
+Proof.
+  intros L Hi Hall. apply frozen_histories_l; [|exact Hall].
+  eapply icls_of_frozen; [apply frozen_inherited_l; exact L | exact Hi].
+Qed.
+
+(** ** 7. Witnesses *)
+
+Definition fld (n : string) (init : bool) (d : default_kind) (o : on_setattr) : attribute :=
+  {| a_name := n; a_default := d; a_validator := None; a_repr := true; a_eq := true; a_eq_key := None;
+     a_order := true; a_order_key := None; a_hash := None; a_init := init; a_type := None;
+     a_converter := CNone; a_kw_only := false; a_inherited := false; a_on_setattr := o; a_alias := Some n |}.
+
+Definition spec_of (attrs : list attribute) (slots : bool) : cls_spec :=
+  {| k_attrs := attrs; k_frozen := false; k_slots := slots; k_cache_hash := false; k_is_exc := false;
+     k_pre_init := false; k_pre_init_has_args := false; k_post_init := false; k_on_setattr := COsNone;
+     k_mro_slots := []; k_has_dict := negb slots |}.
+
+Definition attrs_def (ap : api) (fz : bool) (o : cls_on_setattr) (k : cls_spec) (bases mro : list nat) : cdef :=
+  {| f_attrs := Some {| d_api := ap; d_frozen := fz; d_auto_detect := match ap with ApiAttrS => false | _ => true end;
+                        d_on_setattr := o; d_spec := k |};
+     f_bases := bases; f_mro := mro; f_user_sa := false; f_user_da := false; f_root_exc := false;
+     f_adds_dict := false |}.
+
+Definition plain_def (bases mro : list nat) : cdef :=
+  {| f_attrs := None; f_bases := bases; f_mro := mro; f_user_sa := false; f_user_da := false;
+     f_root_exc := false; f_adds_dict := true |}.
+
+(** frozen root, undecorated class, define subclass (slotted), undecorated leaf. *)
+Definition ex_chain : list cdef :=
+  [ attrs_def ApiAttrS true COsNone (spec_of [fld "x" true DNothing OsNone] false) [] [];
+    plain_def [0] [0];
+    attrs_def ApiDefine false COsNone (spec_of [fld "x" true DNothing OsNone; fld "y" true DValue OsNone] true) [1] [1; 0];
+    plain_def [2] [2; 1; 0] ].
+
+Example ex_chain_lineage : lineage (build [] ex_chain) 3.
+Proof.
+  assert (L0 : lineage (build [] ex_chain) 0).
+  { eapply L_direct; [vm_compute; reflexivity | reflexivity | reflexivity]. }
+  assert (L1 : lineage (build [] ex_chain) 1).
+  { eapply (L_below _ 1 _ [] 0); [vm_compute; reflexivity | | | | vm_compute; reflexivity | | ];
+      [reflexivity | reflexivity | reflexivity | constructor | exact L0]. }
+  assert (L2 : lineage (build [] ex_chain) 2).
+  { eapply (L_below _ 2 _ [] 1); [vm_compute; reflexivity | | | | vm_compute; reflexivity | | ];
+      [reflexivity | reflexivity | reflexivity | constructor | exact L1]. }
+  eapply (L_below _ 3 _ [] 2); [vm_compute; reflexivity | | | | vm_compute; reflexivity | | ];
+    [reflexivity | reflexivity | reflexivity | constructor | exact L2].
+Qed.
+
+Example ex_chain_frozen : frozen_cls (build [] ex_chain) 3.
+Proof. apply frozen_inherited_l. exact ex_chain_lineage. Qed.
+
+(** A mixin without either method in front of the frozen class: still frozen. *)
+Definition ex_mixin : list cdef :=
+  [ attrs_def ApiFrozen false COsNone (spec_of [fld "x" true DNothing OsNone] false) [] [];
+    plain_def [] [];
+    plain_def [1; 0] [1; 0] ].
+
+Example ex_mixin_lineage : lineage (build [] ex_mixin) 2.
+Proof.
+  eapply (L_below _ 2 _ [1] 0); [vm_compute; reflexivity | | | | vm_compute; reflexivity | | ];
+    [reflexivity | reflexivity | reflexivity | | ].
+  - constructor; [|constructor]. vm_compute. split; reflexivity.
+  - eapply L_direct; [vm_compute; reflexivity | reflexivity | reflexivity].
+Qed.
+
+(** The guard is needed: a hooked (mutable) attrs class in front of the frozen one in the
+    MRO wins the lookup of [__setattr__] — the subclass of a frozen class is then mutable
+    (its [__delattr__] still is the frozen one).  Undecorated and attr.s subclass. *)
+Definition ex_mi (leaf : cdef) : list cdef :=
+  [ attrs_def ApiAttrS true COsNone (spec_of [fld "y" true DValue OsNone] false) [] [];
+    attrs_def ApiAttrS false (COsSingle (HUser "h")) (spec_of [fld "x" true DValue OsNone] false) [] [];
+    leaf ].
+
+Lemma frozen_inherited_mi_refuted_l :
+  exists ds id b c,
+    nth_error (build [] ds) id = Some c /\ In b (c_bases c) /\ frozen_cls (build [] ds) b /\
+    c_user_sa c = false /\ c_user_da c = false /\
+    class_sa (build [] ds) id <> SaFrozen /\ class_da (build [] ds) id = DaFrozen.
+Proof.
+  exists (ex_mi (plain_def [1; 0] [1; 0])), 2, 0.
+  eexists. split; [vm_compute; reflexivity|]. cbn [c_bases c_user_sa c_user_da].
+  split; [right; left; reflexivity|]. split; [split; vm_compute; reflexivity|].
+  split; [reflexivity|]. split; [reflexivity|]. split; [vm_compute; discriminate | vm_compute; reflexivity].
+Qed.
+
+Example ex_mi_attrs_leaf :
+  let t := build [] (ex_mi (attrs_def ApiAttrS false COsNone
+                               (spec_of [fld "y" true DValue OsNone; fld "x" true DValue OsNone] false) [1; 0] [1; 0])) in
+  class_sa t 2 = SaObject /\ class_da t 2 = DaFrozen.
+Proof. vm_compute. split; reflexivity. Qed.
+
+(** F7: a hooked field is rejected on a frozen class even when it is [init=False] without
+    default (it never reaches the initializer), also when frozenness is inherited. *)
+Example ex_f7_rejected :
+  define_class (build [] [attrs_def ApiAttrS true COsNone (spec_of [fld "x" true DValue OsNone] false) [] []])
+    (attrs_def ApiAttrS false COsNone
+       (spec_of [fld "x" true DValue OsNone; fld "y" false DNothing (OsPipe [HUser "h"])] false) [0] [0]) = None.
+Proof. vm_compute. reflexivity. Qed.
+
+(** Non-vacuity of the step theorems. *)
+Definition ex_icls (exc : bool) : icls :=
+  {| ic_spec := with_frozen_os (spec_of [fld "x" true DNothing OsNone] false) true COsNone;
+     ic_exc := exc; ic_sa := SaFrozen; ic_da := DaFrozen; ic_env := ["__class__"] |}.
+Definition ex_state : istate :=
+  fresh_istate {| i_slots := []; i_dict := [("x", VTok 1)]; i_args := None |}.
+
+Example ex_history :
+  map fst (run (ex_icls false) ex_state
+             [OSet "x" (VTok 2); ODel "x"; OAug "x" (VTok 3); OAug "nope" (VTok 3); OSet "__cause__" VNone;
+              OAug "__class__" (VTok 4)])
+  = [RFrozen; RFrozen; RFrozen; RAttrError; RFrozen; RFrozen].
+Proof. vm_compute. reflexivity. Qed.
+
+Example ex_exception_history :
+  let r := run (ex_icls true) ex_state
+             [OSet "__cause__" (VTok 7); OSet "__notes__" (VTok 8); OSet "x" (VTok 2); ODel "__notes__";
+              ODel "__notes__"; ODel "__cause__"; OSet "args" VNone] in
+  map fst r = [ROk; ROk; RFrozen; ROk; RAttrError; RFrozen; RFrozen].
+Proof. vm_compute. reflexivity. Qed.
+
+Example ex_constructs :
+  let k := with_frozen_os (spec_of [fld "x" true DNothing OsNone; fld "y" true DValue OsNone] false) true COsNone in
+  exists sc en, make_init_script k = GenOk sc /\ bind_call sc [VTok 1] [] = Bound en.
+Proof. vm_compute. eexists; eexists; split; reflexivity. Qed.
